@@ -55,7 +55,26 @@ theorem shapeOf_bin (G : GlobalFacts T P F C) {o : Nat} (ho : o ∈ F.bins) :
     have e := prod_eq h1 (G.bin o ho).1
     simp only [LR.Prod.mk.injEq, List.cons.injEq, true_and] at e
     have : C.opTerm o' = C.opTerm o := by omega
-    rw [G.inj o' (Or.inl hm) o (Or.inl ho) this]
+    have hr : C.opRest o' = C.opRest o := by
+      have e2 := e.2
+      cases h' : C.opRest o' with
+      | none =>
+        cases h'' : C.opRest o with
+        | none => rfl
+        | some b =>
+          rw [h', h''] at e2
+          simp at e2
+      | some a =>
+        cases h'' : C.opRest o with
+        | none =>
+          rw [h', h''] at e2
+          simp at e2
+        | some b =>
+          rw [h', h''] at e2
+          simp at e2
+          have : a = b := by omega
+          rw [this]
+    rw [G.inj o' (Or.inl hm) o (Or.inl ho) this hr]
 
 theorem bins_find_none (G : GlobalFacts T P F C) {p : Nat} {pr : LR.Prod}
     (hp : T.prods.get? p = some pr)
